@@ -20,7 +20,7 @@ Definition bind {A B} (r : res A) (f : A -> res B) : res B :=
 Notation "'do' x <- r ; k" := (bind r (fun x => k)) (at level 200, x pattern, r at level 100, k at level 200).
 
 (* ---- bytes ---- *)
-Definition bytes := list N.
+Notation bytes := (list N) (only parsing).
 Definition lenN {A} (l : list A) : N := N.of_nat (length l).
 Definition is_byte (b : N) : bool := b <? 256.
 Definition bytes_ok (l : bytes) : bool := forallb is_byte l.
